@@ -18,6 +18,9 @@ Domain : generated helper flows (vf/co2.py) under a fixed `main` that only start
              statement before the return. Every statement-level fault either sits at the position itself (reached through the history) or in a
              child flow with an interaction loop of its own behind `match EvC()`, so that the error arises while the canary event itself is
              processed and the canaries have to react to that SAME event;
+             or a meta-tag hierarchy: a flow with a valid `bot_action` / `user_action` tag finishes while an ancestor (parent .. great-grandparent, awaited
+             or started) that is still running carries a `bot_intent` / `user_intent` tag whose interpolation cannot be evaluated - the ancestor's tag is
+             evaluated on behalf of the finishing descendant; a further canary reacts to every event on which the descendant / the ancestor finish;
          (b) activated flows that finish / return / abort / raise / fail in their first action before their first waiting statement;
          (c) two canary flows (same interaction loop as main / a loop of their own) and a ColangError watcher.
          Histories mix alphabet events, action life-cycle events, the canary event EvC and `toward` items that feed what the
@@ -67,7 +70,15 @@ RULE = (
     "with histories that walk the helper to the position and then feed the referenced action's event - for a flow reference without any EvC before the child's event, because every finishing flow makes the statement evaluate; "
     "for every statement-level kind: every position behind the canary event, for the bad-return family also at the position, expression / child wait rotating, and placement x expression x child wait x {at the position, behind the canary event} at one position of a helper that awaits another helper, "
     "with a history that walks the helper to the position, feeds Ev91 to the waiting child and sends EvC after every step); immediate activated flows: finish | return | abort | raise | the same after an action / send statement | restart failure through a flipped global | "
-    "first-action-arg (first statement = an action whose event cannot be generated, alone or followed by a wait); history of <=18 items incl. EvC - either free, or steered (free prefix, then 1-6 items `toward` = an event that a waiting statement of the helper carrying the fault, or of a flow it started, "
+    "first-action-arg (first statement = an action whose event cannot be generated, alone or followed by a wait); "
+    "meta-tag HIERARCHY (bad-meta-ancestor-await | bad-meta-ancestor-start: the helper awaits / starts `metaanc`, a flow with `@meta(bot_intent|user_intent=\"{BAD}\")`, BAD in BAD_METAS, that reaches - as parent, grandparent or "
+    "great-grandparent, every level awaiting or starting the next one (sub.links) - the flow `metaleaf` with a VALID tag `@meta(bot_action|user_action=True|\"wave hand\")` = [match Ev91()] + send Reached(); the ancestor's tag is "
+    "evaluated, in the ancestor's context, when the DESCENDANT finishes while the ancestor is still running (it stays for ever at `match NeverMeta()` or finishes later on Ev92, where its own tag is evaluated once more); "
+    "at the position or behind the canary event (there the carrier flow stays after `start metaanc` so that the hierarchy survives); the program gets one more canary (loop of its own) for EVERY Ev91 / Ev92 - the events on which "
+    "the descendant / the ancestor finish - that must emit exactly one marker per such event; enumerated: every position x kind x placement with the sub-parameters rotating, levels x link pattern x descendant-waits x placement and "
+    "ancestor tag x descendant tag x expression x placement at one position, with a history that steers towards the descendant's / ancestor's own event after every step of the helper and sends EvC after every item; "
+    "labels meta-ancestor-tag-*, meta-descendant-tag-*, meta-ancestor-is-parent|grandparent|great-grandparent, meta-ancestor-links-all-await|all-start|mixed, meta-descendant-tag-value-*, meta-ancestor-stays|finishes-later, "
+    "meta-descendant-finished-under-faulty-ancestor, meta-own-event-canary-checked-while-hierarchy-waits|idle); history of <=18 items incl. EvC - either free, or steered (free prefix, then 1-6 items `toward` = an event that a waiting statement of the helper carrying the fault, or of a flow it started, "
     "is waiting for at that moment: alphabet event with the parameters the statement names, the end of an action it awaits, or the Started/Finished event of the action an erroneous reference-member match refers to; three of four ref-arg-match cases are steered; then EvC items mixed with further steering; label history-steered-towards-fault) -, each EvC carrying a drawn payload "
     "(str | list | dict | None | number of the other numeric type | well-typed number not satisfying the comparison | parameter missing; optionally wrapped like the pattern's nesting; bare item = \"x1\"). "
     "Non-trivial = the fault position was reached (marker `Reached` seen, or a head was parked on the faulty match when an EvC arrived whose evaluation has to fail: any EvC for an invalid pattern, "
@@ -86,6 +97,9 @@ ASSUMPTIONS = [
     "fault behind the canary event: the flow onevc that carries the fault sits in an interaction loop of its own (as do the immediate flows and the children it starts), so its statements never compete with a canary for an action; the canaries must emit exactly one marker each for that very EvC",
     "bad-return: `return` ends its flow, so the statements the helper had after the position are dropped; an awaited child that fails takes the awaiting helper with it (language semantics), a started one does not unless it fails before it has started - neither is asserted, only the unconditional parts plus the ColangError in the call that emits the marker",
     "the marker `send Reached()` is an outgoing event: if an exception escapes run_to_completion the outgoing events of that step are dropped by process_events' retry, the marker with them - such an escape then shows through the canaries (fault behind the canary event) or the C09 invariants, not through error-not-reported",
+    "meta-tag hierarchy: which flow has to FAIL when the ancestor's intent tag cannot be evaluated on behalf of the finishing descendant is not derivable from the statement (the unchanged tree fails none: the descendant has finished, "
+    "the ancestor goes on, a ColangError is pushed) - only the unconditional parts are asserted: no exception escapes, a ColangError in the call that emits the descendant's marker, both EvC canaries and the Ev91 / Ev92 canary react exactly once to "
+    "every event of their name, termination, C09 invariants; no other generated flow waits for Ev91 / Ev92 or carries a meta tag, so the nearest tagged ancestor of `metaleaf` is always `metaanc`",
     "a ColangError is demanded for a valid comparison pattern only when a number has to be compared with a str, list or dict; None, bool and int-vs-float are treated as unspecified (the implementation rejects them too, the check does not rely on it)",
 ]
 WALL = {"quick": 170, "thorough": 1500}
@@ -148,15 +162,22 @@ FAULTS = {
     # a decorator `@meta(<tag>="{<erroneous expression>}")`: the interpolation is evaluated when the decorated flow finishes
     "bad-meta-await": "await metachild",
     "bad-meta-start": "start metachild",
+    # a HIERARCHY: the erroneous interpolation sits in the intent tag (`@meta(bot_intent|user_intent="{<erroneous expression>}")`) of an
+    # ANCESTOR (parent / grandparent / great-grandparent, each level awaits or starts the next one) of a flow with a VALID action tag
+    # (`@meta(bot_action|user_action=True|"name")`): the ancestor's tag is evaluated, in the ancestor's context, when the DESCENDANT
+    # finishes (it looks up the intent it belongs to) while the ancestor itself is still running
+    "bad-meta-ancestor-await": "await metaanc",
+    "bad-meta-ancestor-start": "start metaanc",
 }
 CMP_FAULTS = ("compare-type-match", "compare-type-match-as-ref", "compare-type-match-with-child", "compare-type-match-or-group", "compare-type-match-and-group")
 REFARG_FAULTS = ("ref-arg-match", "ref-arg-match-as-ref", "ref-arg-match-after-match", "ref-arg-match-after-send", "ref-arg-match-or-group", "ref-arg-match-and-group")
 RET_FAULTS = ("bad-return", "bad-return-awaited-child", "bad-return-assigned-child", "bad-return-started-child")
 DEF_FAULTS = ("bad-default-start", "bad-default-await", "bad-default-activate")
 META_FAULTS = ("bad-meta-await", "bad-meta-start")
+META_ANC_FAULTS = ("bad-meta-ancestor-await", "bad-meta-ancestor-start")
 # kinds whose marker `send Reached()` sits inside the child flow that carries the error (directly before the erroneous statement / as
 # the last statement of the decorated flow) instead of in front of the injected statement
-CHILD_MARKED = RET_FAULTS[1:] + META_FAULTS
+CHILD_MARKED = RET_FAULTS[1:] + META_FAULTS + META_ANC_FAULTS
 # kinds for which a ColangError is not demanded when the statement is reached (marker ReachedSoft)
 SOFT_FAULTS = ("bad-internal-event",)
 BAD_RETS = ["$items[3]", "1 / 0", "$undefinedvar.attr", '{"a": 1}["nokey"]', '1 + "a"']
@@ -176,8 +197,16 @@ BAD_DEFAULTS = ["1 / 0", "$undefinedvar.attr", '{"a": 1}["nokey"]', '1 + "a"', "
 DEF_SIGS = [("$p=BAD", ""), ("$q $p=BAD", " 1")]  # (signature, arguments of the call: the parameter with the default is omitted)
 META_TAGS = ("user_intent", "bot_intent", "user_action", "bot_action")
 BAD_METAS = ["1 / 0", "$undefinedvar.attr", "[1][5]"]
-SUB_DEFAULT = {"bad": 0, "sig": 0, "tag": 0, "wait": False, "ie": 0}
-SUB_FAULTS = RET_FAULTS + DEF_FAULTS + META_FAULTS + ("activate-bad-first-action", "bad-internal-event")
+# hierarchy of the ancestor-tag family: intent tag of the ancestor x action tag of the finishing descendant (sub["tag"] selects the pair),
+# value of the descendant's own (valid) tag, number of levels between the two (sub["depth"]: 0 = parent, 1 = grandparent, 2 = great-
+# grandparent), per level await (bit clear) / start (bit set) in sub["links"], ancestor staying for ever / finishing later on Ev92
+META_ANC_TAGS = ("bot_intent", "user_intent")
+META_LEAF_TAGS = ("bot_action", "user_action")
+META_LEAF_VALUES = ("True", '"wave hand"')
+META_ANC_LEVELS = ("parent", "grandparent", "great-grandparent")
+META_ANC_EVENT = "Ev92"
+SUB_DEFAULT = {"bad": 0, "sig": 0, "tag": 0, "wait": False, "ie": 0, "depth": 0, "links": 0, "leafval": 0, "ancfin": False}
+SUB_FAULTS = RET_FAULTS + DEF_FAULTS + META_FAULTS + META_ANC_FAULTS + ("activate-bad-first-action", "bad-internal-event")
 MATCH_FAULTS = ("bad-regex-match", "bad-compare-match", "bad-regex-match-with-child", "bad-regex-match-or-group", "bad-regex-match-and-group") + CMP_FAULTS + REFARG_FAULTS
 # reference-member matches with an erroneous argument: referenced object (statement that creates it, event type prefix, parameter
 # named in the match) x member event x erroneous argument expression. The child flow `argchild` finishes on the event Ev90.
@@ -474,7 +503,8 @@ def _case(draw):
     on_evc = draw(st.sampled_from([False, False, True]))
     if on_evc and kind != "none" and kind not in MATCH_FAULTS:
         fault["on_evc"] = True
-    sub = draw(st.fixed_dictionaries({"bad": st.integers(0, 4), "wait": st.booleans(), "sig": st.integers(0, len(DEF_SIGS) - 1), "tag": st.integers(0, len(META_TAGS) - 1), "ie": st.integers(0, len(BAD_EVENTS) - 1)}))
+    sub = draw(st.fixed_dictionaries({"bad": st.integers(0, 4), "wait": st.booleans(), "sig": st.integers(0, len(DEF_SIGS) - 1), "tag": st.integers(0, len(META_TAGS) - 1), "ie": st.integers(0, len(BAD_EVENTS) - 1),
+                                      "depth": st.integers(0, len(META_ANC_LEVELS) - 1), "links": st.integers(0, 7), "leafval": st.integers(0, len(META_LEAF_VALUES) - 1), "ancfin": st.booleans()}))
     if kind in SUB_FAULTS:
         fault["sub"] = sub
     cmp = draw(st.fixed_dictionaries({"op": st.sampled_from(sorted(CMP_OPS)), "ref": st.sampled_from(CMP_REFS), "nest": st.sampled_from(("plain",) + CMP_NESTS)}))
@@ -560,6 +590,12 @@ def enumerate_cases(tier):
     # return statement / parameter default / meta decorator, malformed internal events, an activated flow failing in its first action:
     # (a) every position x kind x {at the position, behind the canary event} with the sub-parameters rotating, (b) the sub-parameter
     # products at one position. The history walks the helper to the position and feeds what the child flow carrying the fault waits for.
+    # ancestor-tag hierarchy: the helper goes on after `start ...`, waits itself and stops what it started when it finishes - a history that,
+    # after every step of the helper, steers towards the LAST candidates (the tagged descendant `metaleaf` waiting for Ev91, the ancestor
+    # `metaanc` waiting for Ev92) instead of the helper's own waits, with the canary event after every item
+    tw = lambda i: ["toward", i, None]
+    hist_m = [["ev", 0, None], tw(-1), ["ev", 1, None], tw(-1), tw(-2), ["ev", 2, None], tw(-1), tw(0), tw(-1), tw(-2), tw(-1), ["finished", 0], tw(-1)]
+    hist_m = [["evc"]] + [y for x in hist_m for y in (x, ["evc"])]
     n = 0
     for helpers in fam:
         for h, fl in enumerate(helpers):
@@ -572,17 +608,32 @@ def enumerate_cases(tier):
                         fault = {"kind": kind, "helper": h, "pos": pos, "on_evc": on_evc}
                         if kind in SUB_FAULTS:
                             fault["sub"] = {"bad": n % 5, "wait": n % 3 == 0, "sig": n % 2, "tag": n % 4, "ie": n % len(BAD_EVENTS)}
-                        yield {"helpers": helpers, "fault": fault, "imm": [], "hist": hist_r, "choices": [], "activate_helpers": n % 4 == 0}
+                            if kind in META_ANC_FAULTS:
+                                fault["sub"].update({"depth": (n // 2) % 3, "links": (n // 2) % 8, "leafval": (n // 4) % 2, "ancfin": n % 5 == 0})
+                        yield {"helpers": helpers, "fault": fault, "imm": [], "hist": hist_m if kind in META_ANC_FAULTS else hist_r, "choices": [], "activate_helpers": n % 4 == 0}
     prods = [(k, {"bad": b, "wait": w}) for k in RET_FAULTS for b in range(len(BAD_RETS)) for w in ((False, True) if k != "bad-return" else (False,))]
     prods += [(k, {"bad": b, "sig": g}) for k in DEF_FAULTS for b in range(len(BAD_DEFAULTS)) for g in range(len(DEF_SIGS))]
     prods += [(k, {"bad": b, "tag": t, "wait": w}) for k in META_FAULTS for b in range(len(BAD_METAS)) for t in range(len(META_TAGS)) for w in (False, True)]
+    # ancestor-tag hierarchy: (a) levels x link pattern (await / start per level) x descendant waits, the tag pair / the erroneous expression /
+    # the descendant's tag value / the ancestor finishing later rotating; (b) ancestor tag x descendant tag x expression for a parent and a grandparent
+    m = 0
+    for k in META_ANC_FAULTS:
+        for d in range(len(META_ANC_LEVELS)):
+            for ln in range(2 ** (d + 1)):
+                for w in (False, True):
+                    m += 1
+                    prods.append((k, {"bad": m % len(BAD_METAS), "tag": (m // 2) % 4, "wait": w, "depth": d, "links": ln, "leafval": (m // 3) % 2, "ancfin": m % 4 == 0}))
+        for t in range(len(META_ANC_TAGS) * len(META_LEAF_TAGS)):
+            for b in range(len(BAD_METAS)):
+                m += 1
+                prods.append((k, {"bad": b, "tag": t, "wait": m % 2 == 0, "depth": m % 2, "links": m % 3, "leafval": (m // 2) % 2, "ancfin": m % 5 == 0}))
     prods += [("bad-internal-event", {"ie": i}) for i in range(len(BAD_EVENTS))]
     prods += [("activate-bad-first-action", {"wait": w}) for w in (False, True)]
     for kind, sub in prods:
         for on_evc in (False, True):
             if kind in PENDING_FAULTS:
                 continue
-            yield {"helpers": fam[1], "fault": {"kind": kind, "helper": 0, "pos": 1, "on_evc": on_evc, "sub": sub}, "imm": [], "hist": hist_r, "choices": [], "activate_helpers": on_evc and sub.get("bad", 0) % 2 == 1}
+            yield {"helpers": fam[1], "fault": {"kind": kind, "helper": 0, "pos": 1, "on_evc": on_evc, "sub": sub}, "imm": [], "hist": hist_m if kind in META_ANC_FAULTS else hist_r, "choices": [], "activate_helpers": on_evc and sub.get("bad", 0) % 2 == 1}
     hist_z = [["evc"], ["evz"], ["evc"], ["evc"], ["ev", 0, None], ["evc"]]
     for imm in IMMEDIATE:
         for act in (False, True):
@@ -594,6 +645,24 @@ def _sub_of(case):
     d = dict(SUB_DEFAULT)
     d.update(case["fault"].get("sub") or {})
     return d
+
+
+def _anc_depth(sub):
+    return 1 + sub["depth"] % len(META_ANC_LEVELS)
+
+
+def _anc_tags(sub):
+    t = sub["tag"] % (len(META_ANC_TAGS) * len(META_LEAF_TAGS))
+    return META_ANC_TAGS[t % len(META_ANC_TAGS)], META_LEAF_TAGS[t // len(META_ANC_TAGS)]
+
+
+def _event_canaries(case):
+    """Names of the events (other than EvC) for which the program gets a canary of its own: the event the tagged descendant of the
+    ancestor-tag hierarchy waits for before it finishes, and the event on which the faulty ancestor itself finishes later."""
+    if case["fault"]["kind"] not in META_ANC_FAULTS:
+        return []
+    sub = _sub_of(case)
+    return ([RET_CHILD_EVENT] if sub["wait"] else []) + ([META_ANC_EVENT] if sub["ancfin"] else [])
 
 
 def _on_evc(case):
@@ -635,7 +704,9 @@ def build(case):
         # a `return` statement is the last statement of its flow: what the helper had after the position is dropped
         tail = [] if kind == "bad-return" else body[pos:]
         if _on_evc(case):
-            flows_extra.append({"name": "onevc", "params": [], "loop": "onevcloop", "body": _raw(["match EvC()"]) + inj})
+            # (a flow that finishes stops the flows it started: behind `start metaanc` the carrier stays so that the hierarchy survives)
+            stay = _raw(["match NeverOnEvc()"]) if kind == "bad-meta-ancestor-start" else []
+            flows_extra.append({"name": "onevc", "params": [], "loop": "onevcloop", "body": _raw(["match EvC()"]) + inj + stay})
             inj, tail = _raw(["start onevc"]), body[pos:]
         h["body"] = body[:pos] + inj + tail
         helpers[f["helper"] % len(helpers)] = h
@@ -648,6 +719,18 @@ def build(case):
             flows_extra.append({"name": "defchild", "params": [sig.replace("BAD", BAD_DEFAULTS[sub["bad"] % len(BAD_DEFAULTS)])[1:]], "loop": None, "body": _raw(["match NeverDef()"])})
         if kind in META_FAULTS:
             flows_extra.append({"name": "metachild", "params": [], "loop": None, "body": wait + _raw(["send Reached()"])})
+        if kind in META_ANC_FAULTS:
+            names = ["metaanc", "metamid1", "metamid2"][: _anc_depth(sub)] + ["metaleaf"]
+            for i, name in enumerate(names[:-1]):
+                started = bool((sub["links"] >> i) & 1)
+                if i == 0:
+                    # the ancestor is still running when the descendant finishes: it stays for ever, or finishes later on an event of its own
+                    rest = [f"match {META_ANC_EVENT}()"] if sub["ancfin"] else ["match NeverMeta()"]
+                else:
+                    # a level in between: finishes with the flow it awaited / stays (a finishing flow would abort the flow it started)
+                    rest = ["match NeverMid()"] if started else []
+                flows_extra.append({"name": name, "params": [], "loop": None, "body": _raw([("start " if started else "await ") + names[i + 1]] + rest)})
+            flows_extra.append({"name": "metaleaf", "params": [], "loop": None, "body": wait + _raw(["send Reached()"])})
     flows = list(helpers) + flows_extra
     flows.append({"name": "canaryhelper", "params": [], "loop": None, "body": [{"k": "raw", "text": "match NeverHelper()"}]})
     flows.append({"name": "evcchild", "params": [], "loop": None, "body": [{"k": "raw", "text": "match EvC()"}, {"k": "raw", "text": "match NeverChild()"}]})
@@ -663,6 +746,11 @@ def build(case):
         flows.append({"name": "argchild", "params": [], "loop": None, "body": [{"k": "raw", "text": f"match {REF_CHILD_EVENT}()"}]})
         flows.append({"name": "canary3", "params": [], "loop": "canary3loop", "body": [{"k": "raw", "text": f"match {_canary3_event(case)}()"}, {"k": "raw", "text": "send Canary3Out()"}]})
         main.append({"k": "raw", "text": "activate canary3"})
+    for name in _event_canaries(case):
+        # a canary (loop of its own) for EVERY event of the name that lets the tagged descendant / the faulty ancestor finish: an unrelated
+        # flow must react to the very event whose processing evaluates the erroneous tag
+        flows.append({"name": "canary" + name.lower(), "params": [], "loop": "canary%sloop" % name.lower(), "body": _raw([f"match {name}()", f"send Canary{name}Out()"])})
+        main.append({"k": "raw", "text": "activate canary" + name.lower()})
     for i, ikind in enumerate(case["imm"]):
         body = IMMEDIATE.get(ikind) or KNOWN_IMMEDIATE[ikind]
         # a loop of its own: a flow that reacts to the canary event must not compete with the canaries for an action
@@ -677,6 +765,10 @@ def build(case):
     if kind in META_FAULTS:
         deco = '@meta(%s="{%s}")\n' % (META_TAGS[sub["tag"] % len(META_TAGS)], BAD_METAS[sub["bad"] % len(BAD_METAS)])
         text = text.replace("flow metachild\n", deco + "flow metachild\n")
+    if kind in META_ANC_FAULTS:
+        anc_tag, leaf_tag = _anc_tags(sub)
+        text = text.replace("flow metaanc\n", '@meta(%s="{%s}")\nflow metaanc\n' % (anc_tag, BAD_METAS[sub["bad"] % len(BAD_METAS)]))
+        text = text.replace("flow metaleaf\n", "@meta(%s=%s)\nflow metaleaf\n" % (leaf_tag, META_LEAF_VALUES[sub["leafval"] % len(META_LEAF_VALUES)]))
     return text
 
 
@@ -731,6 +823,8 @@ def prop(case):
     toward_used = 0
     evc_triggers = 0
     soft_reached = False
+    ev_canaries = _event_canaries(case)
+    ev_canary_hits = 0
     max_steps = 0
     loop = asyncio.new_event_loop()
     real_sleep = rmod.asyncio.sleep
@@ -827,9 +921,21 @@ def prop(case):
                     elif isinstance(obj, _flows().FlowState):
                         if ev["type"] == REF_CHILD_EVENT and obj.uid in [f for f, _ in smh.scan_matchers(state).get(REF_CHILD_EVENT, [])]:
                             ref_due.append(fs_.uid)
+            family_parked = False
+            if ev["type"] in ev_canaries:
+                family_parked = any(state.flow_states[f].flow_id.startswith("meta") for f, _ in smh.scan_matchers(state).get(ev["type"], []))
             out, state = run([ev], state)
             ledger(out)
             types = smh.types(out)
+            if ev["type"] in ev_canaries:
+                canary_checks += 1
+                ev_canary_hits += family_parked
+                cn = types.count("Canary%sOut" % ev["type"])
+                if cn != 1:
+                    raise Violation(
+                        "canary-starved" if family_parked else "canary-miscount",
+                        f"after {ev} (#{i}) the canary waiting for every {ev['type']} emitted Canary{ev['type']}Out x{cn} (expected 1); a flow of the hierarchy under the faulty tag ({kind}) was waiting for that event: {family_parked}; events {types}\n{text}",
+                    )
             if kind in REFARG_FAULTS and ev["type"] == _canary3_event(case):
                 canary_checks += 1
                 c3 = types.count("Canary3Out")
@@ -889,6 +995,16 @@ def prop(case):
             labels += ["default-bad-%d" % (sub["bad"] % len(BAD_DEFAULTS)), "default-sig-%d" % (sub["sig"] % len(DEF_SIGS))]
         if kind in META_FAULTS:
             labels += ["meta-tag-" + META_TAGS[sub["tag"] % len(META_TAGS)], "meta-bad-%d" % (sub["bad"] % len(BAD_METAS))]
+        if kind in META_ANC_FAULTS:
+            d = _anc_depth(sub)
+            links = ["start" if (sub["links"] >> i) & 1 else "await" for i in range(d)]
+            labels += ["meta-ancestor-tag-" + _anc_tags(sub)[0], "meta-descendant-tag-" + _anc_tags(sub)[1], "meta-bad-%d" % (sub["bad"] % len(BAD_METAS))]
+            labels += ["meta-ancestor-is-" + META_ANC_LEVELS[d - 1], "meta-ancestor-links-" + ("all-await" if "start" not in links else "all-start" if "await" not in links else "mixed")]
+            labels += ["meta-descendant-tag-value-" + ("name" if sub["leafval"] % len(META_LEAF_VALUES) else "true"), "meta-ancestor-finishes-later" if sub["ancfin"] else "meta-ancestor-stays"]
+            if reached:
+                labels.append("meta-descendant-finished-under-faulty-ancestor")
+            if ev_canaries:
+                labels.append("meta-own-event-canary-checked-while-hierarchy-waits" if ev_canary_hits else "meta-own-event-canary-idle")
         if kind == "bad-internal-event":
             labels += ["internal-event-%d" % (sub["ie"] % len(BAD_EVENTS)), "internal-event-raised" if soft_reached and saw_error else "internal-event-tolerated" if soft_reached else "internal-event-not-sent"]
         if kind in CHILD_MARKED:
